@@ -1,9 +1,12 @@
 (* core/src/language/go.rs, function by function (plus the trait defaults of language/mod.rs that
    Go does not override: format_type, format_simple_type, format_generic_type,
-   write_types_for_anonymous_structs). Output is text (str). *)
+   write_types_for_anonymous_structs). Output is text (str).
+   Shape: go_generate = layout (go_show, go_render_member/variant/decl) after decisions (go_texp,
+   go_member_of, go_variant_of, go_decl_of); go_obs_ty/member/variant and go_obs project the decided
+   declarations to the language-independent observation types of Model/Lang/Decl.v. *)
 From Coq Require Import String.
 From TS Require Import Model.Str Model.Outcome Model.Unicode Model.Types Model.Parse Model.Rename
-                       Model.TopsortAlgo Model.Topsort Model.Lang.Common.
+                       Model.TopsortAlgo Model.Topsort Model.Lang.Common Model.Lang.Decl.
 
 (* go.rs:18 struct Go: the pub fields a caller sets (imports starts empty: it is the printing state),
    plus the text of env!("CARGO_PKG_VERSION") *)
@@ -119,194 +122,237 @@ Definition go_format_field_name (name : str) (exported : bool) : TM str :=
 Definition go_add_import (name : str) : TM unit :=
   mdo st <- mget; mput (sset_insert name st).
 
+(* ---- target type expressions ----
+   [texp] cannot carry Go's fixed-length array form `[n]T` (XFixed is n copies of the element and
+   loses the element type at n = 0), so Go keeps its own tree; [go_obs_ty] projects it to [texp]. *)
+Inductive go_ty :=
+| GName (name : str) (args : list go_ty)   (* user / builtin name, with `[A, B]` type arguments *)
+| GSlice (elem : go_ty)                    (* []T *)
+| GArray (n : N) (elem : go_ty)            (* [n]T *)
+| GMap (k v : go_ty)                       (* map[K]V *)
+| GPtr (inner : go_ty)                     (* *T *)
+| GRaw (text : str).                       (* verbatim: type_mappings results, #[typeshare(go(type = ".."))] overrides *)
+
+(* layout of a type expression *)
+Fixpoint go_show (t : go_ty) : str :=
+  match t with
+  | GName n [] => n
+  | GName n args => n ++ lit "[" ++ join (lit ", ") (map go_show args) ++ lit "]"   (* go.rs:115 *)
+  | GSlice e => lit "[]" ++ go_show e
+  | GArray n e => lit "[" ++ dec_of_N n ++ lit "]" ++ go_show e
+  | GMap k v => lit "map[" ++ go_show k ++ lit "]" ++ go_show v
+  | GPtr e => lit "*" ++ go_show e
+  | GRaw t => t
+  end.
+
+(* observation: the array length is dropped ([n]T is seen as a sequence of T) *)
+Fixpoint go_obs_ty (t : go_ty) : texp :=
+  match t with
+  | GName n args => XName n (map go_obs_ty args)
+  | GSlice e => XSeq (go_obs_ty e)
+  | GArray _ e => XSeq (go_obs_ty e)
+  | GMap k v => XMap (go_obs_ty k) (go_obs_ty v)
+  | GPtr e => XOpt (go_obs_ty e)
+  | GRaw t => XRaw t
+  end.
+
 (* format_type / format_simple_type / format_generic_type (mod.rs:207-264 defaults),
-   go.rs:115 format_generic_parameters, go.rs:119 format_special_type.
+   go.rs:119 format_special_type, building a tree; [go_show] prints it.
    No arm returns Err: Go's format_type is total. *)
-Fixpoint go_format_type (generics : list str) (t : rtype) : TM str :=
-  let special_mapped (k : TM str) : TM str :=             (* go.rs:124 *)
+Fixpoint go_texp (generics : list str) (t : rtype) : TM go_ty :=
+  let special_mapped (k : TM go_ty) : TM go_ty :=         (* go.rs:124 *)
     match tmap_get (go_type_mappings cfg) (rtype_display t) with
-    | Some mapped => ret mapped
+    | Some mapped => ret (GRaw mapped)
     | None => k
     end in
   match t with
-  | RSimple id => ret (match tmap_get (go_type_mappings cfg) id with Some m => m | None => id end)
+  | RSimple id => ret (match tmap_get (go_type_mappings cfg) id with Some m => GRaw m | None => GName id [] end)
   | RGeneric id ps =>
     match tmap_get (go_type_mappings cfg) id with
-    | Some m => ret m
+    | Some m => ret (GRaw m)                       (* a mapped generic type drops its arguments *)
     | None =>
-      mdo parts <- (fix go (l : list rtype) : TM (list str) :=
+      mdo parts <- (fix go (l : list rtype) : TM (list go_ty) :=
                       match l with
                       | [] => ret []
-                      | x :: r => mdo y <- go_format_type generics x; mdo ys <- go r; ret (y :: ys)
+                      | x :: r => mdo y <- go_texp generics x; mdo ys <- go r; ret (y :: ys)
                       end) ps;
-      ret (id ++ match parts with [] => [] | _ => lit "[" ++ join (lit ", ") parts ++ lit "]" end)
+      ret (GName id parts)
     end
-  | RVec x => special_mapped (mdo s <- go_format_type generics x; ret (lit "[]" ++ s))
-  | RArray x n => special_mapped (mdo s <- go_format_type generics x;
-                                  ret (lit "[" ++ dec_of_N n ++ lit "]" ++ s))
-  | RSlice x => special_mapped (mdo s <- go_format_type generics x; ret (lit "[]" ++ s))
+  | RVec x => special_mapped (mdo e <- go_texp generics x; ret (GSlice e))
+  | RArray x n => special_mapped (mdo e <- go_texp generics x; ret (GArray n e))
+  | RSlice x => special_mapped (mdo e <- go_texp generics x; ret (GSlice e))
   | ROption x =>
-    special_mapped (mdo s <- go_format_type generics x;
-                    ret ((if is_vec x && go_no_pointer_slice cfg then [] else lit "*") ++ s))
+    special_mapped (mdo e <- go_texp generics x;
+                    ret (if is_vec x && go_no_pointer_slice cfg then e else GPtr e))
   | RHashMap k v =>
-    special_mapped (mdo ks <- go_format_type generics k;
-                    mdo vs <- go_format_type generics v;
-                    ret (lit "map[" ++ ks ++ lit "]" ++ vs))
+    special_mapped (mdo ks <- go_texp generics k;
+                    mdo vs <- go_texp generics v;
+                    ret (GMap ks vs))
   | RPrim p =>
     special_mapped
       match p with
-      | PUnit => ret (lit "struct{}")
-      | PString => ret (lit "string")
-      | PChar => ret (lit "rune")
-      | PI8 | PU8 | PU16 | PI32 | PI16 | PISize | PUSize => ret (lit "int")
-      | PU32 => ret (lit "uint32")
-      | PI54 | PI64 => ret (lit "int64")
-      | PU53 | PU64 => ret (lit "uint64")
-      | PBool => ret (lit "bool")
-      | PF32 => ret (lit "float32")
-      | PF64 => ret (lit "float64")
-      | PDateTime => mdo _ <- go_add_import (lit "time"); ret (lit "time.Time")
+      | PUnit => ret (GName (lit "struct{}") [])
+      | PString => ret (GName (lit "string") [])
+      | PChar => ret (GName (lit "rune") [])
+      | PI8 | PU8 | PU16 | PI32 | PI16 | PISize | PUSize => ret (GName (lit "int") [])
+      | PU32 => ret (GName (lit "uint32") [])
+      | PI54 | PI64 => ret (GName (lit "int64") [])
+      | PU53 | PU64 => ret (GName (lit "uint64") [])
+      | PBool => ret (GName (lit "bool") [])
+      | PF32 => ret (GName (lit "float32") [])
+      | PF64 => ret (GName (lit "float64") [])
+      | PDateTime => mdo _ <- go_add_import (lit "time"); ret (GName (lit "time.Time") [])
       end
   end.
 
-(* go.rs:489 write_field *)
-Definition go_write_field (generics : list str) (f : rfield) : TM str :=
+Definition go_format_type (generics : list str) (t : rtype) : TM str :=
+  mdo x <- go_texp generics t; ret (go_show x).
+
+(* acronyms_to_uppercase applied name by name (and to verbatim text) *)
+Fixpoint go_ty_acronyms (t : go_ty) : outcome go_ty :=
+  let A := go_convert_acronyms_to_uppercase (go_uppercase_acronyms cfg) in
+  match t with
+  | GName n args =>
+    do n' <- A n;
+    do args' <- (fix go (l : list go_ty) : outcome (list go_ty) :=
+                   match l with
+                   | [] => Ok []
+                   | x :: r => do y <- go_ty_acronyms x; do ys <- go r; Ok (y :: ys)
+                   end) args;
+    Ok (GName n' args')
+  | GSlice e => do e' <- go_ty_acronyms e; Ok (GSlice e')
+  | GArray n e => do e' <- go_ty_acronyms e; Ok (GArray n e')
+  | GMap k v => do k' <- go_ty_acronyms k; do v' <- go_ty_acronyms v; Ok (GMap k' v')
+  | GPtr e => do e' <- go_ty_acronyms e; Ok (GPtr e')
+  | GRaw x => do x' <- A x; Ok (GRaw x')
+  end.
+
+(* go.rs:512, go.rs:360: acronyms_to_uppercase runs on the formatted TEXT of a type (a match can
+   straddle `[`, `]`, `, `, and the byte/char arithmetic of go.rs:579 depends on everything to the
+   left of it). The decided type is the name-by-name converted tree whenever that tree prints to
+   exactly the real text (always, for ASCII names and alphanumeric acronyms), and the real text
+   kept verbatim otherwise. Either way
+       go_show (result) = acronyms_to_uppercase (go_show t)
+   and the outcome (panic site included) is the one of the real, textual, computation. *)
+Definition go_acronyms_ty (t : go_ty) : TM go_ty :=
+  mdo text <- go_acronyms_to_uppercase (go_show t);
+  ret (match go_ty_acronyms t with
+       | Ok t' => if str_eqb (go_show t') text then t' else GRaw text
+       | _ => GRaw text
+       end).
+
+(* ---- declarations (decisions) ---- *)
+Record go_member := { gm_docs : list str;
+                      gm_name : str;        (* exported field identifier *)
+                      gm_star : bool;       (* write_field's own `*` (has_default on a non-Option type) *)
+                      gm_type : go_ty;      (* after acronyms_to_uppercase *)
+                      gm_key : str;         (* JSON key of the struct tag, unescaped *)
+                      gm_omitempty : bool }.
+
+(* what an algebraic variant carries *)
+Inductive go_content :=
+| GCNone                                    (* unit variant *)
+| GCType (ty : go_ty) (is_ptr : bool)       (* tuple variant: content type; whether accessors/constructors use *T *)
+| GCInner (ref : str).                      (* struct variant: the <Enum><Variant>Inner name AS REFERRED TO (always *T) *)
+Record go_variant := { gv_docs : list str;
+                       gv_const : str;      (* variant_type_const: the constant declared for the variant *)
+                       gv_wire : str;       (* its string value *)
+                       gv_method : str;     (* variant_name: the accessor method *)
+                       gv_content : go_content }.
+
+Record go_tagged := { gt_docs : list str;
+                      gt_name : str;            (* struct_name *)
+                      gt_key_type : str;        (* variant_key_type *)
+                      gt_tag_key : str;
+                      gt_content_key : str;
+                      gt_tag_field : str;       (* go.rs:314 and go.rs:432: the same expression *)
+                      gt_content_field : str;
+                      gt_short : str;           (* receiver name *)
+                      gt_variants : list go_variant }.
+
+Inductive go_decl :=
+| GOStruct (docs : list str) (name : str) (generics : list str) (ms : list go_member)
+| GOAlias (docs : list str) (name : str) (ty : go_ty)
+| GOConst (name : str) (ty : go_ty) (value : str)
+| GOUnitEnum (docs : list str) (name : str) (vs : list (list str * str * str))   (* docs, const name, wire value *)
+| GOTagged (e : go_tagged).
+
+(* go.rs:489 write_field: decisions *)
+Definition go_member_of (generics : list str) (f : rfield) : TM go_member :=
   mdo type_name <- match type_override f Go with
-                   | Some o => ret o
-                   | None => go_format_type generics (fty f)
+                   | Some o => ret (GRaw o)
+                   | None => go_texp generics (fty f)
                    end;
-  mdo go_type <- go_acronyms_to_uppercase type_name;
-  let optional := is_optional (fty f) || has_default f in
-  (* format!("{:?}", renamed) without its first and last byte (the quotes) *)
-  let renamed_id := flat_map escape_debug_char (renamed (fid f)) in
+  mdo go_type <- go_acronyms_ty type_name;
   mdo fname <- go_format_field_name (original (fid f)) true;
-  ret (go_write_comments 1 (fcomments f) ++
-       [ch_tab] ++ fname ++ lit " " ++
-       (if has_default f && negb (is_optional (fty f)) then lit "*" else []) ++ go_type ++
-       lit " `json:""" ++ renamed_id ++ (if optional then lit ",omitempty" else []) ++ lit """`" ++ go_nl).
+  ret {| gm_docs := fcomments f; gm_name := fname;
+         gm_star := has_default f && negb (is_optional (fty f));
+         gm_type := go_type; gm_key := renamed (fid f);
+         gm_omitempty := is_optional (fty f) || has_default f |}.
 
-(* go.rs:191 write_type_alias (generic parameters of the alias are not printed) *)
-Definition go_write_type_alias (a : ralias) : TM str :=
-  mdo name <- go_acronyms_to_uppercase (original (aid a));
-  mdo ty <- go_format_type [] (atype a);
-  ret (go_write_comments 0 (acomments a) ++ lit "type " ++ name ++ lit " " ++ ty ++ go_nl ++ go_nl).
-
-(* go.rs:205 write_const *)
-Definition go_write_const (c : rconst) : TM str :=
-  mdo const_type <- go_format_type [] (ctype c);
-  ret (lit "const " ++ to_pascal_case (renamed (cid c)) ++ lit " " ++ const_type ++ lit " = " ++
-       dec_of_Z (cvalue c) ++ go_nl).
-
-(* go.rs:222 write_struct *)
-Definition go_write_struct (rs : rstruct) : TM str :=
+(* go.rs:222 write_struct: decisions *)
+Definition go_struct_decl_of (rs : rstruct) : TM go_decl :=
   mdo name <- go_acronyms_to_uppercase (renamed (sid rs));
-  mdo body <- mconcat (go_write_field (sgenerics rs)) (sfields rs);
-  ret (go_write_comments 0 (scomments rs) ++
-       lit "type " ++ name ++
-       match sgenerics rs with
-       | [] => []
-       | gs => lit "[" ++ join (lit ", ") (map (fun g => g ++ lit " any") gs) ++ lit "]"
-       end ++ lit " struct {" ++ go_nl ++
-       body ++ lit "}" ++ go_nl).
+  mdo ms <- mmapM (go_member_of (sgenerics rs)) (sfields rs);
+  ret (GOStruct (scomments rs) name (sgenerics rs) ms).
 
 (* go.rs:266 make_anonymous_struct_name *)
 Definition go_make_anonymous_struct_name (sh : eshared) (variant_name : str) : TM str :=
   go_acronyms_to_uppercase (original (eid sh) ++ variant_name ++ lit "Inner").
 
-(* mod.rs:366 write_types_for_anonymous_structs, with Go's make_struct_name and write_struct *)
-Definition go_write_types_for_anonymous_structs (sh : eshared) : TM str :=
-  mconcat (fun v => match v with
-                    | VAnon fs vsh =>
-                      mdo struct_name <- go_make_anonymous_struct_name sh (original (vid vsh));
-                      go_write_struct (anon_struct sh struct_name (original (vid vsh)) fs)
-                    | _ => ret []
-                    end) (evariants sh).
+(* mod.rs:366 write_types_for_anonymous_structs, with Go's make_struct_name and write_struct:
+   the helper struct is DEFINED under acronyms(acronyms(Enum ++ Variant ++ "Inner")) *)
+Definition go_anonymous_struct_decls (sh : eshared) : TM (list go_decl) :=
+  mdo ds <- mmapM (fun v => match v with
+                            | VAnon fs vsh =>
+                              mdo struct_name <- go_make_anonymous_struct_name sh (original (vid vsh));
+                              mdo d <- go_struct_decl_of (anon_struct sh struct_name (original (vid vsh)) fs);
+                              ret [d]
+                            | _ => ret []
+                            end) (evariants sh);
+  ret (List.concat ds).
 
 (* go.rs:288-302: one variant of a unit enum *)
-Definition go_write_unit_variant (sh : eshared) (v : rvariant) : TM str :=
+Definition go_unit_variant_of (sh : eshared) (v : rvariant) : TM (list str * str * str) :=
   match v with
   | VUnit vsh =>
     mdo en <- go_acronyms_to_uppercase (original (eid sh));
     mdo vn <- go_acronyms_to_uppercase (original (vid vsh));
-    ret (go_nl ++ go_write_comments 1 (vcomments vsh) ++
-         [ch_tab] ++ en ++ vn ++ lit " " ++ en ++ lit " = " ++ debug_str (renamed (vid vsh)))
+    ret (vcomments vsh, en ++ vn, renamed (vid vsh))
   | _ => mpanic "go.rs:301"
   end.
 
-(* what one iteration of the loop go.rs:329-424 contributes *)
-Record go_variant_out := { go_vo_written : str;        (* written to w *)
-                           go_vo_decoding : str;       (* pushed on decoding_cases *)
-                           go_vo_accessors : str;      (* pushed on variant_accessors *)
-                           go_vo_constructors : str }. (* pushed on variant_constructors *)
-
-(* go.rs:329-424: body of `for v in &shared.variants` of an algebraic enum *)
-Definition go_write_algebraic_variant (sh : eshared) (custom_structs : list str)
-    (struct_name tag_key tag_field content_field struct_short_name variant_key_type : str)
-    (v : rvariant) : TM go_variant_out :=
+(* go.rs:329-424: body of `for v in &shared.variants` of an algebraic enum: decisions.
+   A struct variant is REFERRED TO as acronyms(acronyms(Enum ++ acronyms(Variant) ++ "Inner")). *)
+Definition go_variant_of (sh : eshared) (custom_structs : list str) (struct_name tag_key : str)
+    (v : rvariant) : TM go_variant :=
   let vsh := variant_shared v in
   mdo variant_name <- go_acronyms_to_uppercase (original (vid vsh));
   mdo variant_type <- match v with
-                      | VTuple ty _ => mdo s <- go_format_type [] ty; ret (Some s)   (* .unwrap(): never Err *)
-                      | VAnon _ _ => mdo s <- go_make_anonymous_struct_name sh variant_name; ret (Some s)
+                      | VTuple ty _ => mdo x <- go_texp [] ty; ret (Some (inl x))   (* .unwrap(): never Err *)
+                      | VAnon _ _ => mdo s <- go_make_anonymous_struct_name sh variant_name; ret (Some (inr s))
                       | VUnit _ => ret None
                       end;
   mdo tag_part <- go_acronyms_to_uppercase (to_pascal_case tag_key);
   let variant_type_const := struct_name ++ tag_part ++ lit "Variant" ++ variant_name in
-  let case_line := [ch_tab] ++ lit "case " ++ variant_type_const ++ lit ":" ++ go_nl in
-  let written :=
-    go_write_comments 1 (vcomments vsh) ++
-    [ch_tab] ++ variant_type_const ++ lit " " ++ variant_key_type ++ lit " = " ++
-    debug_str (renamed (vid vsh)) ++ go_nl in
-  match variant_type with
-  | Some variant_type =>
-    let is_ptr := match v with VAnon _ _ => true | _ => mem_str variant_type custom_structs end in
-    let variant_pointer := if is_ptr then lit "*" else [] in
-    let variant_deref := if is_ptr then [] else lit "*" in
-    let variant_ref := if is_ptr then [] else lit "&" in
-    mdo fvt <- go_acronyms_to_uppercase variant_type;
-    ret {| go_vo_written := written;
-           go_vo_decoding :=
-             case_line ++
-             go_tabs 2 ++ lit "var res " ++ fvt ++ go_nl ++
-             go_tabs 2 ++ struct_short_name ++ lit "." ++ content_field ++ lit " = &res" ++ go_nl;
-           go_vo_accessors :=
-             lit "func (" ++ struct_short_name ++ lit " " ++ struct_name ++ lit ") " ++ variant_name ++
-               lit "() " ++ variant_pointer ++ fvt ++ lit " {" ++ go_nl ++
-             [ch_tab] ++ lit "res, _ := " ++ struct_short_name ++ lit "." ++ content_field ++
-               lit ".(*" ++ fvt ++ lit ")" ++ go_nl ++
-             [ch_tab] ++ lit "return " ++ variant_deref ++ lit "res" ++ go_nl ++
-             lit "}" ++ go_nl;
-           go_vo_constructors :=
-             lit "func New" ++ variant_type_const ++ lit "(content " ++ variant_pointer ++ fvt ++ lit ") " ++
-               struct_name ++ lit " {" ++ go_nl ++
-             lit "    return " ++ struct_name ++ lit "{" ++ go_nl ++
-             lit "        " ++ tag_field ++ lit ": " ++ variant_type_const ++ lit "," ++ go_nl ++
-             lit "        " ++ content_field ++ lit ": " ++ variant_ref ++ lit "content," ++ go_nl ++
-             lit "    }" ++ go_nl ++
-             lit "}" ++ go_nl |}
-  | None =>
-    ret {| go_vo_written := written;
-           go_vo_decoding := case_line ++ go_tabs 2 ++ lit "return nil" ++ go_nl;
-           go_vo_accessors := [];
-           go_vo_constructors :=
-             lit "func New" ++ variant_type_const ++ lit "() " ++ struct_name ++ lit " {" ++ go_nl ++
-             lit "    return " ++ struct_name ++ lit "{" ++ go_nl ++
-             lit "        " ++ tag_field ++ lit ": " ++ variant_type_const ++ lit "," ++ go_nl ++
-             lit "    }" ++ go_nl ++
-             lit "}" ++ go_nl |}
-  end.
+  mdo content <- match variant_type with
+                 | Some (inl x) =>                                (* go.rs:353 looks the unconverted text up *)
+                   mdo fvt <- go_acronyms_ty x; ret (GCType fvt (mem_str (go_show x) custom_structs))
+                 | Some (inr s) => mdo fvt <- go_acronyms_to_uppercase s; ret (GCInner fvt)
+                 | None => ret GCNone
+                 end;
+  ret {| gv_docs := vcomments vsh; gv_const := variant_type_const; gv_wire := renamed (vid vsh);
+         gv_method := variant_name; gv_content := content |}.
 
-(* go.rs:258 write_enum *)
-Definition go_write_enum (custom_structs : list str) (e : renum) : TM str :=
+(* go.rs:258 write_enum: decisions. The helper structs come first, as declarations of their own. *)
+Definition go_enum_decls_of (custom_structs : list str) (e : renum) : TM (list go_decl) :=
   let sh := enum_shared e in
-  mdo anon <- go_write_types_for_anonymous_structs sh;                (* go.rs:274 *)
-  let head := anon ++ go_write_comments 0 (ecomments sh) in
+  mdo anon <- go_anonymous_struct_decls sh;                           (* go.rs:274 *)
   match e with
   | EUnit _ =>
     mdo en <- go_acronyms_to_uppercase (original (eid sh));
-    mdo vs <- mconcat (go_write_unit_variant sh) (evariants sh);
-    ret (head ++ lit "type " ++ en ++ lit " string" ++ go_nl ++
-         lit "const (" ++ vs ++ go_nl ++ lit ")" ++ go_nl)
+    mdo vs <- mmapM (go_unit_variant_of sh) (evariants sh);
+    ret (anon ++ [GOUnitEnum (ecomments sh) en vs])
   | EAlgebraic tag_key content_key _ =>
     mdo struct_name <- go_acronyms_to_uppercase (original (eid sh));  (* go.rs:312 *)
     mdo content_field <- go_lift (to_camel_case content_key);         (* go.rs:313, panics on "" *)
@@ -318,63 +364,241 @@ Definition go_write_enum (custom_structs : list str) (e : renum) : TM str :=
       end;
     mdo tag_acr <- go_acronyms_to_uppercase tag_key;                  (* go.rs:319 *)
     let variant_key_type := struct_name ++ to_pascal_case tag_acr ++ lit "s" in
-    mdo vos <- mmapM (go_write_algebraic_variant sh custom_structs struct_name tag_key tag_field
-                        content_field struct_short_name variant_key_type) (evariants sh);
-    mdo tag_field2 <- go_format_field_name tag_key true;              (* go.rs:432 *)
-    let sn := struct_short_name in
-    let T := [ch_tab] in
-    ret (head ++
-         lit "type " ++ variant_key_type ++ lit " string" ++ go_nl ++
-         lit "const (" ++ go_nl ++
-         flat_map go_vo_written vos ++
-         lit ")" ++ go_nl ++
-         lit "type " ++ struct_name ++ lit " struct{ " ++ go_nl ++
-         T ++ tag_field2 ++ lit " " ++ variant_key_type ++ lit " `json:" ++ debug_str tag_key ++ lit "`" ++ go_nl ++
-         T ++ content_field ++ lit " interface{}" ++ go_nl ++
-         lit "}" ++ go_nl ++
-         (* go.rs:441-473, then writeln!'s newline *)
-         go_nl ++
-         lit "func (" ++ sn ++ lit " *" ++ struct_name ++ lit ") UnmarshalJSON(data []byte) error {" ++ go_nl ++
-         T ++ lit "var enum struct {" ++ go_nl ++
-         T ++ T ++ lit "Tag    " ++ variant_key_type ++ lit "   `json:""" ++ tag_key ++ lit """`" ++ go_nl ++
-         T ++ T ++ lit "Content json.RawMessage `json:""" ++ content_key ++ lit """`" ++ go_nl ++
-         T ++ lit "}" ++ go_nl ++
-         T ++ lit "if err := json.Unmarshal(data, &enum); err != nil {" ++ go_nl ++
-         T ++ T ++ lit "return err" ++ go_nl ++
-         T ++ lit "}" ++ go_nl ++
-         go_nl ++
-         T ++ sn ++ lit "." ++ tag_field ++ lit " = enum.Tag" ++ go_nl ++
-         T ++ lit "switch " ++ sn ++ lit "." ++ tag_field ++ lit " {" ++ go_nl ++
-         flat_map go_vo_decoding vos ++ go_nl ++
-         T ++ lit "}" ++ go_nl ++
-         T ++ lit "if err := json.Unmarshal(enum.Content, &" ++ sn ++ lit "." ++ content_field ++ lit "); err != nil {" ++ go_nl ++
-         T ++ T ++ lit "return err" ++ go_nl ++
-         T ++ lit "}" ++ go_nl ++
-         go_nl ++
-         T ++ lit "return nil" ++ go_nl ++
-         lit "}" ++ go_nl ++
-         go_nl ++
-         lit "func (" ++ sn ++ lit " " ++ struct_name ++ lit ") MarshalJSON() ([]byte, error) {" ++ go_nl ++
-         lit "    var enum struct {" ++ go_nl ++
-         T ++ T ++ lit "Tag    " ++ variant_key_type ++ lit "   `json:""" ++ tag_key ++ lit """`" ++ go_nl ++
-         T ++ T ++ lit "Content interface{} `json:""" ++ content_key ++ lit ",omitempty""`" ++ go_nl ++
-         lit "    }" ++ go_nl ++
-         lit "    enum.Tag = " ++ sn ++ lit "." ++ tag_field ++ go_nl ++
-         lit "    enum.Content = " ++ sn ++ lit "." ++ content_field ++ go_nl ++
-         lit "    return json.Marshal(enum)" ++ go_nl ++
-         lit "}" ++ go_nl ++
-         go_nl ++
-         flat_map go_vo_accessors vos ++ go_nl ++
-         flat_map go_vo_constructors vos ++ go_nl)
+    mdo vs <- mmapM (go_variant_of sh custom_structs struct_name tag_key) (evariants sh);
+    (* go.rs:432 evaluates format_field_name(tag_key) once more: same value, cannot fail here *)
+    ret (anon ++ [GOTagged {| gt_docs := ecomments sh; gt_name := struct_name; gt_key_type := variant_key_type;
+                              gt_tag_key := tag_key; gt_content_key := content_key;
+                              gt_tag_field := tag_field; gt_content_field := content_field;
+                              gt_short := struct_short_name; gt_variants := vs |}])
   end.
 
-Definition go_write_item (custom_structs : list str) (it : ritem) : TM str :=
+(* one source item -> the definitions emitted for it, in output order *)
+Definition go_decl_of (custom_structs : list str) (it : ritem) : TM (list go_decl) :=
   match it with
-  | ItEnum e => go_write_enum custom_structs e
-  | ItStruct s => go_write_struct s
-  | ItAlias a => go_write_type_alias a
-  | ItConst c => go_write_const c
+  | ItEnum e => go_enum_decls_of custom_structs e
+  | ItStruct s => mdo d <- go_struct_decl_of s; ret [d]
+  | ItAlias a =>                                   (* go.rs:191: the target type is NOT acronym-converted *)
+    mdo name <- go_acronyms_to_uppercase (original (aid a));
+    mdo ty <- go_texp [] (atype a);
+    ret [GOAlias (acomments a) name ty]
+  | ItConst c =>                                   (* go.rs:205: neither the name nor the type is acronym-converted *)
+    mdo const_type <- go_texp [] (ctype c);
+    ret [GOConst (to_pascal_case (renamed (cid c))) const_type (dec_of_Z (cvalue c))]
   end.
+
+(* ---- rendering (layout only) ---- *)
+(* go.rs:516-526; the key is printed as format!("{:?}", key) without its first and last byte *)
+Definition go_render_member (m : go_member) : str :=
+  go_write_comments 1 (gm_docs m) ++
+  [ch_tab] ++ gm_name m ++ lit " " ++
+  (if gm_star m then lit "*" else []) ++ go_show (gm_type m) ++
+  lit " `json:""" ++ flat_map escape_debug_char (gm_key m) ++
+  (if gm_omitempty m then lit ",omitempty" else []) ++ lit """`" ++ go_nl.
+
+(* what one iteration of the loop go.rs:329-424 contributes *)
+Record go_variant_out := { go_vo_written : str;        (* written to w *)
+                           go_vo_decoding : str;       (* pushed on decoding_cases *)
+                           go_vo_accessors : str;      (* pushed on variant_accessors *)
+                           go_vo_constructors : str }. (* pushed on variant_constructors *)
+
+Definition go_render_variant (e : go_tagged) (v : go_variant) : go_variant_out :=
+  let struct_name := gt_name e in
+  let struct_short_name := gt_short e in
+  let tag_field := gt_tag_field e in
+  let content_field := gt_content_field e in
+  let variant_type_const := gv_const v in
+  let case_line := [ch_tab] ++ lit "case " ++ variant_type_const ++ lit ":" ++ go_nl in
+  let written :=
+    go_write_comments 1 (gv_docs v) ++
+    [ch_tab] ++ variant_type_const ++ lit " " ++ gt_key_type e ++ lit " = " ++
+    debug_str (gv_wire v) ++ go_nl in
+  let with_content (fvt : str) (is_ptr : bool) :=
+    let variant_pointer := if is_ptr then lit "*" else [] in
+    let variant_deref := if is_ptr then [] else lit "*" in
+    let variant_ref := if is_ptr then [] else lit "&" in
+    {| go_vo_written := written;
+       go_vo_decoding :=
+         case_line ++
+         go_tabs 2 ++ lit "var res " ++ fvt ++ go_nl ++
+         go_tabs 2 ++ struct_short_name ++ lit "." ++ content_field ++ lit " = &res" ++ go_nl;
+       go_vo_accessors :=
+         lit "func (" ++ struct_short_name ++ lit " " ++ struct_name ++ lit ") " ++ gv_method v ++
+           lit "() " ++ variant_pointer ++ fvt ++ lit " {" ++ go_nl ++
+         [ch_tab] ++ lit "res, _ := " ++ struct_short_name ++ lit "." ++ content_field ++
+           lit ".(*" ++ fvt ++ lit ")" ++ go_nl ++
+         [ch_tab] ++ lit "return " ++ variant_deref ++ lit "res" ++ go_nl ++
+         lit "}" ++ go_nl;
+       go_vo_constructors :=
+         lit "func New" ++ variant_type_const ++ lit "(content " ++ variant_pointer ++ fvt ++ lit ") " ++
+           struct_name ++ lit " {" ++ go_nl ++
+         lit "    return " ++ struct_name ++ lit "{" ++ go_nl ++
+         lit "        " ++ tag_field ++ lit ": " ++ variant_type_const ++ lit "," ++ go_nl ++
+         lit "        " ++ content_field ++ lit ": " ++ variant_ref ++ lit "content," ++ go_nl ++
+         lit "    }" ++ go_nl ++
+         lit "}" ++ go_nl |} in
+  match gv_content v with
+  | GCType ty is_ptr => with_content (go_show ty) is_ptr
+  | GCInner ref => with_content ref true
+  | GCNone =>
+    {| go_vo_written := written;
+       go_vo_decoding := case_line ++ go_tabs 2 ++ lit "return nil" ++ go_nl;
+       go_vo_accessors := [];
+       go_vo_constructors :=
+         lit "func New" ++ variant_type_const ++ lit "() " ++ struct_name ++ lit " {" ++ go_nl ++
+         lit "    return " ++ struct_name ++ lit "{" ++ go_nl ++
+         lit "        " ++ tag_field ++ lit ": " ++ variant_type_const ++ lit "," ++ go_nl ++
+         lit "    }" ++ go_nl ++
+         lit "}" ++ go_nl |}
+  end.
+
+Definition go_render_decl (d : go_decl) : str :=
+  match d with
+  | GOStruct docs name gs ms =>                                  (* go.rs:222 write_struct *)
+    go_write_comments 0 docs ++
+    lit "type " ++ name ++
+    match gs with
+    | [] => []
+    | _ => lit "[" ++ join (lit ", ") (map (fun g => g ++ lit " any") gs) ++ lit "]"
+    end ++ lit " struct {" ++ go_nl ++
+    List.concat (map go_render_member ms) ++ lit "}" ++ go_nl
+  | GOAlias docs name ty =>                                      (* go.rs:191 write_type_alias *)
+    go_write_comments 0 docs ++ lit "type " ++ name ++ lit " " ++ go_show ty ++ go_nl ++ go_nl
+  | GOConst name ty value =>                                     (* go.rs:205 write_const *)
+    lit "const " ++ name ++ lit " " ++ go_show ty ++ lit " = " ++ value ++ go_nl
+  | GOUnitEnum docs name vs =>                                   (* go.rs:279-305 *)
+    go_write_comments 0 docs ++
+    lit "type " ++ name ++ lit " string" ++ go_nl ++
+    lit "const (" ++
+    List.concat (map (fun v => let '(vdocs, const, wire) := v in
+                               go_nl ++ go_write_comments 1 vdocs ++
+                               [ch_tab] ++ const ++ lit " " ++ name ++ lit " = " ++ debug_str wire) vs) ++
+    go_nl ++ lit ")" ++ go_nl
+  | GOTagged e =>                                                (* go.rs:306-485 *)
+    let struct_name := gt_name e in
+    let variant_key_type := gt_key_type e in
+    let tag_key := gt_tag_key e in
+    let content_key := gt_content_key e in
+    let tag_field := gt_tag_field e in
+    let content_field := gt_content_field e in
+    let sn := gt_short e in
+    let vos := map (go_render_variant e) (gt_variants e) in
+    let T := [ch_tab] in
+    go_write_comments 0 (gt_docs e) ++
+    lit "type " ++ variant_key_type ++ lit " string" ++ go_nl ++
+    lit "const (" ++ go_nl ++
+    flat_map go_vo_written vos ++
+    lit ")" ++ go_nl ++
+    lit "type " ++ struct_name ++ lit " struct{ " ++ go_nl ++
+    T ++ tag_field ++ lit " " ++ variant_key_type ++ lit " `json:" ++ debug_str tag_key ++ lit "`" ++ go_nl ++
+    T ++ content_field ++ lit " interface{}" ++ go_nl ++
+    lit "}" ++ go_nl ++
+    (* go.rs:441-473, then writeln!'s newline *)
+    go_nl ++
+    lit "func (" ++ sn ++ lit " *" ++ struct_name ++ lit ") UnmarshalJSON(data []byte) error {" ++ go_nl ++
+    T ++ lit "var enum struct {" ++ go_nl ++
+    T ++ T ++ lit "Tag    " ++ variant_key_type ++ lit "   `json:""" ++ tag_key ++ lit """`" ++ go_nl ++
+    T ++ T ++ lit "Content json.RawMessage `json:""" ++ content_key ++ lit """`" ++ go_nl ++
+    T ++ lit "}" ++ go_nl ++
+    T ++ lit "if err := json.Unmarshal(data, &enum); err != nil {" ++ go_nl ++
+    T ++ T ++ lit "return err" ++ go_nl ++
+    T ++ lit "}" ++ go_nl ++
+    go_nl ++
+    T ++ sn ++ lit "." ++ tag_field ++ lit " = enum.Tag" ++ go_nl ++
+    T ++ lit "switch " ++ sn ++ lit "." ++ tag_field ++ lit " {" ++ go_nl ++
+    flat_map go_vo_decoding vos ++ go_nl ++
+    T ++ lit "}" ++ go_nl ++
+    T ++ lit "if err := json.Unmarshal(enum.Content, &" ++ sn ++ lit "." ++ content_field ++ lit "); err != nil {" ++ go_nl ++
+    T ++ T ++ lit "return err" ++ go_nl ++
+    T ++ lit "}" ++ go_nl ++
+    go_nl ++
+    T ++ lit "return nil" ++ go_nl ++
+    lit "}" ++ go_nl ++
+    go_nl ++
+    lit "func (" ++ sn ++ lit " " ++ struct_name ++ lit ") MarshalJSON() ([]byte, error) {" ++ go_nl ++
+    lit "    var enum struct {" ++ go_nl ++
+    T ++ T ++ lit "Tag    " ++ variant_key_type ++ lit "   `json:""" ++ tag_key ++ lit """`" ++ go_nl ++
+    T ++ T ++ lit "Content interface{} `json:""" ++ content_key ++ lit ",omitempty""`" ++ go_nl ++
+    lit "    }" ++ go_nl ++
+    lit "    enum.Tag = " ++ sn ++ lit "." ++ tag_field ++ go_nl ++
+    lit "    enum.Content = " ++ sn ++ lit "." ++ content_field ++ go_nl ++
+    lit "    return json.Marshal(enum)" ++ go_nl ++
+    lit "}" ++ go_nl ++
+    go_nl ++
+    flat_map go_vo_accessors vos ++ go_nl ++
+    flat_map go_vo_constructors vos ++ go_nl
+  end.
+
+(* write_enum / write_struct / write_type_alias / write_const = render of the declarations *)
+Definition go_write_item (custom_structs : list str) (it : ritem) : TM str :=
+  mdo ds <- go_decl_of custom_structs it; ret (List.concat (map go_render_decl ds)).
+
+(* ---- observation: the language-independent view of a declaration ---- *)
+(* mb_optional = write_field's `is_optional` (go.rs:513), i.e. the tag says `,omitempty`; such a
+   field is also a pointer (the `*` written by write_field, or the `*` Option<T> formats to) except
+   for Option<Vec<T>> under no_pointer_slice and for mapped / overridden types.
+   mb_type = the printed type without that pointer: write_field's own `*` is not part of gm_type;
+   otherwise, for an omitempty field, ONE leading GPtr of the type is removed (Option<Option<T>>
+   keeps the inner one). Nothing is removed from verbatim (GRaw) types. *)
+Definition go_obs_member (m : go_member) : member :=
+  {| mb_name := gm_name m; mb_escaped := false; mb_key := gm_key m; mb_binding := BJsonTag;
+     mb_optional := gm_omitempty m;
+     mb_type := go_obs_ty (if gm_omitempty m && negb (gm_star m)
+                           then match gm_type m with GPtr t => t | t => t end
+                           else gm_type m);
+     mb_docs := gm_docs m |}.
+
+(* Go has no optional idiom for variant content (an Option<T> payload is the type *T); whether
+   accessors and constructors pass the content by pointer (is_ptr) is not observable here. A struct
+   variant refers to its helper struct without type arguments, whatever the helper's generics. *)
+Definition go_obs_variant (v : go_variant) : variantd :=
+  {| vd_name := gv_const v; vd_wire := gv_wire v;
+     vd_payload := match gv_content v with
+                   | GCNone => PayUnit
+                   | GCType ty _ => PayNewtype (go_obs_ty ty) false
+                   | GCInner ref => PayRef ref []
+                   end;
+     vd_parent := None; vd_docs := gv_docs v |}.
+
+Definition go_obs (d : go_decl) : list decl :=
+  match d with
+  | GOStruct docs name gs ms =>
+    [{| d_kind := DStruct; d_name := name; d_escaped := false; d_generics := gs; d_docs := docs;
+        d_members := map go_obs_member ms; d_variants := []; d_tag_keys := []; d_content_keys := [];
+        d_type := None; d_value := None |}]
+  | GOAlias docs name ty =>                        (* generic parameters of an alias are not printed *)
+    [{| d_kind := DAlias; d_name := name; d_escaped := false; d_generics := []; d_docs := docs;
+        d_members := []; d_variants := []; d_tag_keys := []; d_content_keys := [];
+        d_type := Some (go_obs_ty ty); d_value := None |}]
+  | GOConst name ty value =>
+    [{| d_kind := DConst; d_name := name; d_escaped := false; d_generics := []; d_docs := [];
+        d_members := []; d_variants := []; d_tag_keys := []; d_content_keys := [];
+        d_type := Some (go_obs_ty ty); d_value := Some value |}]
+  | GOUnitEnum docs name vs =>
+    [{| d_kind := DEnum; d_name := name; d_escaped := false; d_generics := []; d_docs := docs;
+        d_members := [];
+        d_variants := map (fun v => let '(vdocs, const, wire) := v in
+                                    {| vd_name := const; vd_wire := wire; vd_payload := PayUnit;
+                                       vd_parent := None; vd_docs := vdocs |}) vs;
+        d_tag_keys := []; d_content_keys := []; d_type := None; d_value := None |}]
+  | GOTagged e =>
+    (* two definitions: `type <key type> string` (a helper typeshare adds; the enum's doc comment
+       is printed above IT), then `type <name> struct`. The variant constants are typed by the
+       former and listed with the latter. *)
+    [{| d_kind := DHelper; d_name := gt_key_type e; d_escaped := false; d_generics := []; d_docs := gt_docs e;
+        d_members := []; d_variants := []; d_tag_keys := []; d_content_keys := [];
+        d_type := Some (XName (lit "string") []); d_value := None |};
+     {| d_kind := DEnum; d_name := gt_name e; d_escaped := false; d_generics := []; d_docs := [];
+        d_members := []; d_variants := map go_obs_variant (gt_variants e);
+        (* tag key: the struct's own tag (printed {:?}), UnmarshalJSON's and MarshalJSON's `Tag` tags *)
+        d_tag_keys := [gt_tag_key e; gt_tag_key e; gt_tag_key e];
+        (* content key: UnmarshalJSON's and MarshalJSON's `Content` tags (the struct's content field has no tag) *)
+        d_content_keys := [gt_content_key e; gt_content_key e];
+        d_type := None; d_value := None |}]
+  end.
+
+(* names typeshare invents at top level: the variant key types *)
+Definition go_helper_names (d : go_decl) : list str :=
+  match d with GOTagged e => [gt_key_type e] | _ => [] end.
 
 (* go.rs:175 begin_file *)
 Definition go_begin_file : TM str :=
@@ -418,4 +642,25 @@ Definition go_generate (pd : parsed) : outcome str :=
   | Err e => Err e
   | Panic p => Panic p
   end.
+
+(* the declarations of a whole file (what the file DECLARES) and the imports collected *)
+Definition go_decls (pd : parsed) : outcome (list go_decl * go_state) :=
+  do items <- topsort (items_of pd);
+  let custom_structs := go_types_mapping_to_struct items in
+  let run : TM (list go_decl) :=
+    mdo _ <- go_begin_file;
+    mdo dss <- mmapM (go_decl_of custom_structs) items;
+    ret (List.concat dss) in
+  run [].
+
+Definition go_file_decls (pd : parsed) : outcome file_decls :=
+  do r <- go_decls pd;
+  let '(ds, imports) := r in
+  Ok {| fd_header := (if go_no_version_header cfg then []
+                      else [lit "Code generated by typeshare " ++ go_version cfg ++ lit ". DO NOT EDIT."]) ++
+                     [lit "package " ++ go_package cfg];
+        fd_imports := imports;
+        fd_decls := flat_map go_obs ds;
+        (* Go has no file-level helpers; the names typeshare invents are the variant key types *)
+        fd_helper_defs := flat_map go_helper_names ds |}.
 End GO.
